@@ -246,8 +246,19 @@ class Sut:
             def obs():
                 r = root.validate(return_errors=True)
                 return [root.to_er7(), sorted(canon_text(str(x)) for x in r.errors), sorted(canon_text(str(x)) for x in r.warnings)]
+            target = proxy[step[2]]
+
+            def has_empty(e, depth=0):
+                for c in e.children.list:
+                    if c.to_er7() == '' or (depth < 3 and c.classname != 'SubComponent' and has_empty(c, depth + 1)):
+                        return True
+                return False
+            if has_empty(target):
+                # present-but-empty children do not survive a round trip through text (and the statement
+                # does not say they should): the metamorphic check needs a segment without them
+                raise NavError('segment holds present-but-empty children')
             b = obs()
-            text = proxy[step[2]].to_er7()
+            text = target.to_er7()
             proxy[step[2]] = text
             a = obs()
             if a != b:
